@@ -209,7 +209,11 @@ def structure(sub_spelling):
     d.variable(real)
     dotted = Entry("Max. motor speed", 0x2304, 0, 0x07, "rw", default=v1, default_text=num(v1))
     d.variable(dotted)
-    d.section("Comments", ["Lines=2", "Line1=first line", "Line2=second = line"])
+    # 12 comment lines (more than 9: numeric, not alphabetical, order), the count in hex for one spelling, the
+    # section's keys not in order
+    clines = ["first line", "second = line"] + ["line number %d" % i for i in range(3, 13)]
+    ckeys = ["Line%d=%s" % (i + 1, t) for i, t in enumerate(clines)]
+    d.section("Comments", ["Lines=%s" % ("12" if sub_spelling == "sub" else "0xC")] + ckeys[6:] + ckeys[:6])
     od = _import(d.text())
     tag = "C08/structure/" + sub_spelling
     ODRecord, ODArray = C.odmod().ODRecord, C.odmod().ODArray
@@ -234,7 +238,7 @@ def structure(sub_spelling):
     _check_var(od[0x2304], dotted, tag + "/dotted")
     sx.prove(od["Max. motor speed"] is od[0x2304] and "Max. motor speed" in od, "top-level name containing a full stop",
              tag + "/dotted-lookup")
-    sx.prove(od.comments == "first line\nsecond = line", "comments", tag + "/comments")
+    sx.prove(od.comments == "\n".join(clines), "comments", tag + "/comments")
     sx.reach("structure")
 
 
